@@ -40,16 +40,16 @@ Proof. eexists. eexists. split; [vm_compute; reflexivity|]. split; [discriminate
 (* ---- tie to the source: RtMessage::from_bytes / single_tag_message / multi_tag_message as
    translated from src/message.rs on this run never panic, for every byte string: none of the
    translated slices, index operations, `usize` subtractions or `?` conversions can fail ---- *)
-Require RV.Model.GenSupport RV.Gen.Code RV.Proofs.CodeMessage.
+Require RV.Model.GenSupport RV.Gen.Code RV.Proofs.CodeMsgDec RV.Proofs.CodeMsgDisp.
 
 Theorem C06_translated_decoder_total : forall bs, is_panic (RV.Gen.Code.gen_from_bytes bs) = false.
-Proof. exact RV.Proofs.CodeMessage.gen_decoder_total. Qed.
+Proof. exact RV.Proofs.CodeMsgDec.gen_decoder_total. Qed.
 Print Assumptions C06_translated_decoder_total.
 
 Theorem C06_translated_values_are_payload :
   forall bs m, RV.Gen.Code.gen_from_bytes bs = Ok m -> m <> [] ->
                concat (map snd m) = skipn (8 * length m) bs.
-Proof. exact RV.Proofs.CodeMessage.gen_values_are_payload. Qed.
+Proof. exact RV.Proofs.CodeMsgDec.gen_values_are_payload. Qed.
 Print Assumptions C06_translated_values_are_payload.
 
 (* RtMessage::to_string as translated (a Fixpoint on the model's fuel; the recursive call is the
@@ -59,13 +59,13 @@ Theorem C06_translated_display_is_model :
   forall fuel tags values indent, length tags = length values -> 1 <= indent ->
     RV.Gen.Code.gen_to_string fuel tags values indent
     = to_string_f fuel (N.to_nat indent) (combine tags values).
-Proof. exact RV.Proofs.CodeMessage.gen_to_string_model. Qed.
+Proof. exact RV.Proofs.CodeMsgDisp.gen_to_string_model. Qed.
 Print Assumptions C06_translated_display_is_model.
 
 Theorem C06_translated_display_total :
   forall tags values, length tags = length values ->
     exists s, RV.Gen.Code.gen_to_string (S MAX_DISPLAY_DEPTH) tags values 1 = Ok s.
-Proof. exact RV.Proofs.CodeMessage.gen_display_total. Qed.
+Proof. exact RV.Proofs.CodeMsgDisp.gen_display_total. Qed.
 Print Assumptions C06_translated_display_total.
 
 (* ---- tie to the source: the integer literals of the functions this property's model stands for
